@@ -41,8 +41,8 @@ type c17Case struct {
 	MaxPush  int     `json:"max_push,omitempty"`
 }
 
-var c17PushVars = []string{"plain", "pkce-oidc", "with-request_uri", "badsecret", "auth-mismatch", "public-P"}
-var c17Extras = []string{"none", "redirect_uri", "scope", "state", "response_type", "response_mode", "audience", "code_challenge", "nonce", "new-key", "fault-delete"}
+var c17PushVars = []string{"plain", "pkce-oidc", "with-request_uri", "badsecret", "auth-mismatch", "auth-mismatch-request", "public-P"}
+var c17Extras = []string{"none", "redirect_uri", "scope", "state", "response_type", "response_mode", "audience", "code_challenge", "nonce", "new-key", "fault-delete", "uri-trail-space"}
 
 const c17L = 300 // PAR context lifetime (server default 5 min)
 
@@ -100,10 +100,14 @@ func c17Run(c c17Case, res *WRes) (outcomes []string) {
 				form.Set("request_uri", prefix+"abc")
 			case "badsecret":
 				auth = BasicAuth("A", "wrong")
-			case "auth-mismatch":
+			case "auth-mismatch", "auth-mismatch-request":
 				// authenticates as B in the header, names A in the body
 				auth = w.AuthFor("B")
 				auth.Extra = url.Values{"client_id": {"A"}}
+				if op.Var == "auth-mismatch-request" {
+					// ... and carries a request object parameter (not even parsed without the openid scope)
+					form.Set("request", "eyJhbGciOiJub25lIn0.e30.")
+				}
 			case "public-P":
 				form.Set("client_id", "P")
 				form.Set("redirect_uri", "https://P.example/cb")
@@ -129,7 +133,7 @@ func c17Run(c c17Case, res *WRes) (outcomes []string) {
 				if p.valid || stored {
 					viol(i, "C17/push-accepted-without-client-authentication", "a push that failed client authentication was stored", "invalid_client", o.JSON)
 				}
-			case "auth-mismatch":
+			case "auth-mismatch", "auth-mismatch-request":
 				if p.valid {
 					// whose request is it? it must not be A's: A's secret was never shown
 					for k, s := range w.Mem.PARSessions {
@@ -206,6 +210,9 @@ func c17Run(c c17Case, res *WRes) (outcomes []string) {
 			case "new-key":
 				q.Set("prompt", "none")
 				q.Set("login_hint", "attacker")
+			case "uri-trail-space":
+				// whatever spelling starts an authorization counts as a use of the pushed request
+				q.Set("request_uri", p.uri+" ")
 			}
 			logStart := len(w.Store.Log)
 			if op.Extra == "fault-delete" {
